@@ -156,6 +156,22 @@ func judge(c Case, w *vkit.W) {
 	if w.Flip() {
 		// the first formatting of this value in the process goes into a buffer that already holds other text
 		_, _ = c.call([]byte("earlier text "))
+		// other corners of the library are in use meanwhile: errors of every package are turned into text
+		if _, err := roman.DefaultParser("IIX", 0); err != nil {
+			_ = err.Error()
+		}
+		if _, err := sem.Parse("1.2"); err != nil {
+			_ = err.Error()
+		}
+		if _, err := size.DefaultParser("1 xB", 0); err != nil {
+			_ = err.Error()
+		}
+		if _, err := date.DefaultParser("2023-02-29", 0); err != nil {
+			_ = err.Error()
+		}
+		if _, err := uu.DefaultParser("zz", 0); err != nil {
+			_ = err.Error()
+		}
 	}
 	refOut, err := c.call(nil)
 	if err != nil {
@@ -387,14 +403,14 @@ func TestCheck(t *testing.T) {
 		})
 	})
 
-	r.Phase("long prefixes: 65,537 and 1,048,577 caller bytes in front (with spare capacity 0 and 4200) x boundary values x three flag words", func() {
+	r.Phase("long prefixes: 1024, 2048, 4096, 65,537 and 1,048,577 caller bytes in front (with spare capacity 0 and 4200) x boundary values x three flag words", func() {
 		r.Parallel(5, 1, func(w *vkit.W, lo, hi int64) {
 			for pi := lo; pi < hi; pi++ {
 				pkg := []string{"date", "roman", "sem", "size", "uu"}[pi]
-				for _, n := range []int{1<<16 + 1, 1<<20 + 1} {
+				for _, n := range []int{1024, 2048, 4096, 1<<16 + 1, 1<<20 + 1} {
 					prefix := strings.Repeat(alphabets[pkg], n/len(alphabets[pkg])+1)[:n]
 					for vi, base := range values(pkg) {
-						if vi%3 != 0 && n > 1<<16+1 {
+						if vi%3 != 0 && n > 1<<16+1 && pkg != "roman" {
 							continue
 						}
 						for _, flags := range []int{0, flagCounts[pkg] - 1, flagCounts[pkg] / 2} {
